@@ -20,7 +20,7 @@ from scico.functional import Functional
 from scico.loss import Loss
 from scico.numpy import Array, BlockArray
 
-from ._common import Optimizer
+from ._common import Optimizer, _all_finite
 from ._pgmaux import (
     AdaptiveBBStepSize,
     BBStepSize,
@@ -116,7 +116,7 @@ class PGM(Optimizer):
         Return ``False`` if a ``NaN`` or ``Inf`` value is encountered in
         a solver working variable.
         """
-        return snp.all(snp.isfinite(self.x))
+        return _all_finite(self.x)
 
     def _objective_evaluatable(self):
         """Determine whether the objective function can be evaluated."""
@@ -237,4 +237,4 @@ class AcceleratedPGM(PGM):
         Return ``False`` if a ``NaN`` or ``Inf`` value is encountered in
         a solver working variable.
         """
-        return snp.all(snp.isfinite(self.x)) and snp.all(snp.isfinite(self.v))
+        return _all_finite(self.x) and _all_finite(self.v)
